@@ -17,7 +17,7 @@ var (
 	profC13 = sim.Profile{Name: "c13", ReadFaults: 0.05, RSFaults: 0.15, EnvOrder: 0.5, Steps: 140, CanaryProb: 0.5, Hostile: 1, Churn: 0.7, Edits: 5, Holds: 0.5, Commands: 0.7, DupPods: 0.3, Affinity: -1, MaxNodes: 5, Converge: true}
 	profC14 = sim.Profile{Name: "c14", Steps: 100, CanaryProb: 0.5, Hostile: 2, Churn: 1.5, Edits: 1.5, Holds: 1, Commands: 1, DupPods: 1, Affinity: -1, MaxNodes: 6, Converge: true}
 	profC09 = sim.Profile{Name: "c09", Steps: 140, CanaryProb: 0.3, Hostile: 1, Churn: 2, Edits: 2, Holds: 0.3, Commands: 0.3, DupPods: 1.5, Affinity: -1, MaxNodes: 8, PodFaults: 0.25, Burst: 4}
-	profC03 = sim.Profile{Name: "c03", PodFaults: 0.1, OldDS: 0.3, Steps: 150, CanaryProb: 0.4, Hostile: 2, Churn: 2.5, Edits: 3.5, Holds: 0.2, Commands: 0.3, DupPods: 0.5, Affinity: -1, MaxNodes: 10}
+	profC03 = sim.Profile{Name: "c03", Overrides: 1, PodFaults: 0.1, OldDS: 0.3, Steps: 150, CanaryProb: 0.4, Hostile: 2, Churn: 2.5, Edits: 3.5, Holds: 0.2, Commands: 0.3, DupPods: 0.5, Affinity: -1, MaxNodes: 10}
 	profC05 = sim.Profile{Name: "c05", Steps: 140, CanaryProb: 1, Hostile: 2.5, Churn: 1, Edits: 2.5, Holds: 1, Commands: 1.5, DupPods: 0.3, Affinity: -1, MaxNodes: 6}
 	profC15 = sim.Profile{Name: "c15", Steps: 120, CanaryProb: 1, Hostile: 1, Churn: 4, Edits: 2.5, Holds: 0.3, Commands: 0.5, DupPods: 0.3, Affinity: -1, MaxNodes: 9}
 	profC10 = sim.Profile{Name: "c10", ReadFaults: 0.05, Overrides: 4, Steps: 150, CanaryProb: 0.4, Hostile: 1, Churn: 2, Edits: 1.5, Holds: 0.3, Commands: 0.3, DupPods: 0.5, Affinity: -1, MaxNodes: 8, Converge: true}
@@ -52,14 +52,14 @@ func registry() core.Registry {
 		"C02": one(&sim.Sim{Prop: "C02", P: profC02, NQuick: 500, NThor: 6000, FloorsQ: map[string]int{"C02.convergence-phases-with-work": 300, "C02.fixpoints-reached": 400}}, &sim.Sim{Prop: "C02", P: eventDriven(profC02), NQuick: 300, NThor: 3000, FloorsQ: map[string]int{"C02.e-fixpoints-reached": 200}}, &sim.Sim{Prop: "C02", P: big(profC02), NQuick: 40, NThor: 400, FloorsQ: map[string]int{}}, &sim.Sim{Prop: "C02", P: profC10, NQuick: 250, NThor: 2500, FloorsQ: map[string]int{}}),
 		"C03": one(&fn.C03{}, &sim.Sim{Prop: "C03", P: profC03, NQuick: 400, NThor: 6000, FloorsQ: map[string]int{"C03.sim-syncs-deleting-for-update": 250}}, &sim.Sim{Prop: "C03", P: nested(profC03, 0.12), NQuick: 200, NThor: 3000, FloorsQ: map[string]int{}}, &sim.Sim{Prop: "C03", P: big(profC03), NQuick: 40, NThor: 400, FloorsQ: map[string]int{}}),
 		"C04": one(&sim.Sim{Prop: "C04", P: profC04, NQuick: 600, NThor: 6000, FloorsQ: map[string]int{"C04.canary-role-creates": 400, "C04.label-on-judged": 250, "C04.canary-list-growth-judged": 800, "C04.canary-steady-states-judged": 30}}, &sim.Sim{Prop: "C04", P: nested(profC04, 0.12), NQuick: 400, NThor: 4000, FloorsQ: map[string]int{"sim.nested-yields": 5000}}, &sim.Sim{Prop: "C04", P: big(profC04), NQuick: 40, NThor: 400, FloorsQ: map[string]int{}}),
-		"C07": one(&sim.Sim{Prop: "C07", P: profC07, NQuick: 500, NThor: 6000, FloorsQ: map[string]int{"C07.rollbacks-judged": 30, "C07.failed-rs-deletes-judged": 40, "C07.retention-phases": 10}}, &sim.Sim{Prop: "C07", P: nested(profC07, 0.12), NQuick: 250, NThor: 3000, FloorsQ: map[string]int{}}, &sim.Sim{Prop: "C07", P: nested(profC19, 0.15), NQuick: 300, NThor: 4000, FloorsQ: map[string]int{}}, &fn.ManyRS{Prop: "C07"}),
+		"C07": one(&sim.Sim{Prop: "C07", P: profC07, NQuick: 500, NThor: 6000, FloorsQ: map[string]int{"C07.rollbacks-judged": 30, "C07.failed-rs-deletes-judged": 40, "C07.retention-phases": 10}}, &sim.Sim{Prop: "C07", P: nested(profC07, 0.12), NQuick: 250, NThor: 3000, FloorsQ: map[string]int{}}, &sim.Sim{Prop: "C07", P: nested(profC19, 0.15), NQuick: 300, NThor: 4000, FloorsQ: map[string]int{}}, &fn.ManyRS{Prop: "C07"}, &sim.C07Script{}),
 		"C08": one(&sim.C08Script{}, &sim.Sim{Prop: "C08", P: profC08, NQuick: 600, NThor: 6000, FloorsQ: map[string]int{"C08.paused-syncs": 1000, "C08.frozen-syncs": 1000}}, &sim.Sim{Prop: "C08", P: nested(profC08, 0.12), NQuick: 400, NThor: 4000, FloorsQ: map[string]int{"sim.nested-yields": 4000}}),
 		"C11": one(&sim.C11{}, &sim.Sim{Prop: "C11", P: nested(profC19, 0.15), NQuick: 300, NThor: 4000, FloorsQ: map[string]int{}}, &sim.Sim{Prop: "C11", P: nested(profC05, 0.15), NQuick: 300, NThor: 4000, FloorsQ: map[string]int{}}),
 		"C12": one(&sim.Sim{Prop: "C12", P: profC12, NQuick: 500, NThor: 5000, FloorsQ: map[string]int{"C12.writes-judged": 20000}}, &sim.Sim{Prop: "C12", P: nested(profC12, 0.12), NQuick: 250, NThor: 2500, FloorsQ: map[string]int{}}, &sim.Sim{Prop: "C12", P: big(profC12), NQuick: 40, NThor: 400, FloorsQ: map[string]int{}}),
 		"C13": one(&sim.Sim{Prop: "C13", P: profC13, NQuick: 500, NThor: 5000, FloorsQ: map[string]int{"C13.rs-creates-judged": 2000, "C13.rs-deletes-judged": 1500, "C13.podtemplate-judged": 5000}}, &sim.Sim{Prop: "C13", P: nested(profC13, 0.12), NQuick: 250, NThor: 2500, FloorsQ: map[string]int{}}, &sim.C13Conc{}, &fn.ManyRS{Prop: "C13"}, &sim.Sim{Prop: "C13", P: profC12, NQuick: 200, NThor: 2000, FloorsQ: map[string]int{}}),
 		"C05": one(&fn.C05{}, &sim.Sim{Prop: "C05", P: profC05, NQuick: 500, NThor: 6000, FloorsQ: map[string]int{"C05.sim-promotions-judged": 200, "C05.sim-reconciles-with-canary-candidate": 800}}, &sim.Sim{Prop: "C05", P: nested(profC05, 0.12), NQuick: 250, NThor: 3000, FloorsQ: map[string]int{}}, &fn.ManyRS{Prop: "C05"}, &fn.C05Restarts{}),
 		"C06": one(&fn.C06{}, &sim.Sim{Prop: "C06", P: profC07, NQuick: 300, NThor: 4000, FloorsQ: map[string]int{"C06.sim-syncs-of-failed-canary": 12}}, &sim.Sim{Prop: "C06", P: nested(profC07, 0.15), NQuick: 300, NThor: 4000, FloorsQ: map[string]int{}}, &sim.Sim{Prop: "C06", P: nested(profC19, 0.15), NQuick: 200, NThor: 3000, FloorsQ: map[string]int{}}),
-		"C09": one(&fn.C09{}, &sim.Sim{Prop: "C09", P: profC09, NQuick: 600, NThor: 6000, FloorsQ: map[string]int{"C09.acting-syncs": 2000, "C09.sim-creating-syncs-with-binding-ramp": 1500}}, &sim.Sim{Prop: "C09", P: nested(profC09, 0.12), NQuick: 300, NThor: 3000, FloorsQ: map[string]int{}}, &sim.Sim{Prop: "C09", P: big(profC09), NQuick: 40, NThor: 400, FloorsQ: map[string]int{}}),
+		"C09": one(&fn.C09{}, &sim.Sim{Prop: "C09", P: profC09, NQuick: 600, NThor: 6000, FloorsQ: map[string]int{"C09.acting-syncs": 2000, "C09.sim-creating-syncs-with-binding-ramp": 1500}}, &sim.Sim{Prop: "C09", P: nested(profC09, 0.12), NQuick: 300, NThor: 3000, FloorsQ: map[string]int{}}, &sim.Sim{Prop: "C09", P: big(profC09), NQuick: 40, NThor: 400, FloorsQ: map[string]int{}}, &sim.Sim{Prop: "C09", P: profC05, NQuick: 250, NThor: 2500, FloorsQ: map[string]int{}}),
 		"C10": one(&fn.C10{}, &sim.Sim{Prop: "C10", P: profC10, NQuick: 400, NThor: 5000, FloorsQ: map[string]int{"C10.sim-creates-with-annotation": 600, "C10.sim-creates-with-setting": 300, "C10.sim-update-deletes-of-own-pods-judged": 100, "C10.sim-pods-judged-at-fixpoint": 500}}, &sim.Sim{Prop: "C10", P: nested(profC10, 0.12), NQuick: 200, NThor: 2500, FloorsQ: map[string]int{}}),
 		"C14": one(&fn.C14{}, &sim.Sim{Prop: "C14", P: profC14, NQuick: 400, NThor: 4000, FloorsQ: map[string]int{"C14.eds-status-writes-judged": 1500, "C14.rs-status-writes-judged": 2500, "C14.fixpoints-judged": 100}}, &sim.Sim{Prop: "C14", P: nested(profC14, 0.12), NQuick: 200, NThor: 2000, FloorsQ: map[string]int{}}, &sim.Sim{Prop: "C14", P: big(profC14), NQuick: 40, NThor: 400, FloorsQ: map[string]int{}}, &sim.C14Scale{}, &sim.Sim{Prop: "C14", P: profC04, NQuick: 300, NThor: 3000, FloorsQ: map[string]int{}}),
 		"C15": one(&fn.C15{}, &sim.Sim{Prop: "C15", P: profC15, NQuick: 400, NThor: 5000, FloorsQ: map[string]int{"C15.sim-canary-lists-judged": 400}}, &sim.Sim{Prop: "C15", P: nested(profC15, 0.12), NQuick: 200, NThor: 2500, FloorsQ: map[string]int{}}, &sim.Sim{Prop: "C15", P: big(profC15), NQuick: 40, NThor: 400, FloorsQ: map[string]int{}}),
